@@ -48,31 +48,19 @@ func Send(rw io.ReadWriter, streamData *stream.Info, ws bool, version stream.Ver
 		return err
 	}
 
-	if id != "" {
-		_, err = fmt.Fprintf(b, " id='%s'", id)
+	// Addresses (resourceparts in particular) and IDs may contain any character,
+	// including quotes, ampersands, and angle brackets.
+	for _, attr := range []struct{ name, value string }{
+		{"id", id}, {"to", to}, {"from", from}, {"xml:lang", lang},
+	} {
+		if attr.value == "" {
+			continue
+		}
+		_, err = fmt.Fprintf(b, " %s='", attr.name)
 		if err != nil {
 			return err
 		}
-	}
-	if to != "" {
-		_, err = fmt.Fprintf(b, " to='%s'", to)
-		if err != nil {
-			return err
-		}
-	}
-	if from != "" {
-		_, err = fmt.Fprintf(b, " from='%s'", from)
-		if err != nil {
-			return err
-		}
-	}
-
-	if len(lang) > 0 {
-		_, err = b.Write([]byte(" xml:lang='"))
-		if err != nil {
-			return err
-		}
-		err = xml.EscapeText(b, []byte(lang))
+		err = xml.EscapeText(b, []byte(attr.value))
 		if err != nil {
 			return err
 		}
